@@ -58,6 +58,15 @@ CLAIMED = {
         note="Trusted: Coq kernel, translator, harness; pathlib semantics (compared on every generated string); pydantic runs the validators on load; symlinks out of scope. That all read sites use validated paths is shown by audit runs, not by theorem.",
         technique="Coq proof (all strings) over AST-generated validators + differential correspondence with pathlib + audit-hook fault injection",
         design="7/C17"),
+    "C18": dict(
+        text="Coq theorems over state machines of the three shard writers with faithful partial mutation (FlatBuffers: vectors built one by one, example referenced last; npz: one buffer per key of the passed dictionary; "
+             "TFRecord: validate, build, then write), whose statement order and switches are regenerated from the source: for every attribute list and every sequence of good and bad writes the shard holds exactly the accepted writes in order "
+             "(fb: rejected writes leave only unreferenced builder bytes; npz: all buffers keep equal length, so the shard stays loadable); the TFRecord writer's feature kind per dtype equals the reader's (tables generated from tfdata.py). "
+             "Tie and search: sessions mixing every violation kind x attribute position x position in the shard x supported/unsupported declarations on all three formats are written through Dataset.filler, reopened, iterated and compared with the accepted writes; "
+             "the model's accepted set/shard contents are compared with the implementation's for fb and npz. What numpy/TensorFlow do with a concrete value of a wrong dtype is observed, not modelled.",
+        note="Trusted: Coq kernel, translator (statement-order pins), harness; value-level behaviour of np.can_cast/tf.train lists observed by runs only. Known finding F8 (fb accepts bytes/str declarations it cannot read).",
+        technique="Coq proof (all write sequences) over writer state machines with AST-generated switches + differential correspondence and write/reopen/iterate search",
+        design="7/C18"),
     "C13": dict(
         text="Coq theorems over a small-step transition system of LazyPool.imap_unordered + Collector threads at queue-operation granularity "
              "(consumer: prefill/get/put/reset/abandon; workers: get/compute/put; prefill bound, reset sentinel count and exception mode regenerated from lazy_pool.py), "
